@@ -75,7 +75,7 @@ inductive CbItem where
 deriving DecidableEq, Repr, Hashable
 
 inductive Owner where
-  | thr (a : Nat) | call (i : Nat) | other
+  | thr (a : Nat) | call (i : Nat) | self (a : Nat) | other
 deriving DecidableEq, Repr, Hashable
 
 /-- one `resolve` goroutine -/
@@ -392,7 +392,7 @@ def step (s : St) : Ev → Option St
     match s.th[a]? with
     | some (.ref .hook pc true flag true told) =>
       if s.free then
-        some (afterRemove { s with th := s.th.set a (.ref .hook pc false flag false told), owner := .thr a })
+        some (afterRemove { s with th := s.th.set a (.ref .hook pc false flag false told), owner := .self a })
       else none
     | _ => none
   | .invSetCtx a c clear =>
